@@ -228,26 +228,43 @@ Proof.
   destruct r as [|y r']; [destruct n; cbn; now left|]. right. apply IH. discriminate.
 Qed.
 
+Lemma max_future_nonneg c pl : 0 <= max_future c pl.
+Proof. unfold max_future. induction pl as [|p r IH]; cbn [fold_right]; lia. Qed.
+
 (* the limit never blocks the earliest cycle point of the pool *)
 Theorem spec_limit_ge_base c s b l :
   min_point (pool s) = Some b -> b <= stop_point s -> spec_limit c s = Some l -> b <= l.
 Proof.
   unfold spec_limit. intros -> Hs [= <-]. apply Z.min_glb; [|exact Hs].
+  pose proof (max_future_nonneg c (pool s)) as Hf.
+  assert (b <= nth_or_last (c_runahead c) (filter (fun x => b <=? x) (c_points c)) b); [|lia].
   apply nth_or_last_ge; [|lia]. intros x Hx. apply filter_In in Hx. destruct Hx as [_ Hx]. now apply Z.leb_le.
 Qed.
 
-(* the limit is a sequence point at or after the base (or the base / stop point) *)
+(* the limit is a sequence point at or after the base (or the base itself), pushed out by the largest
+   future-trigger offset among the pooled tasks, or the stop point *)
 Theorem spec_limit_on_sequence c s b l :
   min_point (pool s) = Some b -> spec_limit c s = Some l ->
-  l = stop_point s \/ l = b \/ (In l (c_points c) /\ b <= l).
+  l = stop_point s \/ l = b + max_future c (pool s) \/
+  (exists x, In x (c_points c) /\ b <= x /\ l = x + max_future c (pool s)).
 Proof.
   unfold spec_limit. intros -> [= <-].
-  destruct (Z.min_spec (nth_or_last (c_runahead c) (filter (fun x => b <=? x) (c_points c)) b) (stop_point s))
+  destruct (Z.min_spec (nth_or_last (c_runahead c) (filter (fun x => b <=? x) (c_points c)) b + max_future c (pool s))
+                       (stop_point s))
     as [[_ ->]|[_ ->]]; [|now left]. right.
   destruct (filter (fun x => b <=? x) (c_points c)) as [|x r] eqn:Ef.
   - left. destruct (c_runahead c); reflexivity.
   - right. assert (Hin : In (nth_or_last (c_runahead c) (x :: r) b) (x :: r)) by (apply nth_or_last_In; discriminate).
-    rewrite <- Ef in Hin at 2. apply filter_In in Hin. destruct Hin as [H1 H2]. split; [exact H1|now apply Z.leb_le].
+    rewrite <- Ef in Hin at 2. apply filter_In in Hin. destruct Hin as [H1 H2].
+    eexists. split; [exact H1|]. split; [now apply Z.leb_le|reflexivity].
+Qed.
+
+(* without future triggers among the pooled tasks the adjustment vanishes *)
+Theorem max_future_none c pl :
+  (forall p, In p pl -> fut_of c p = 0) -> max_future c pl = 0.
+Proof.
+  unfold max_future. induction pl as [|p r IH]; cbn [fold_right]; intros H; [reflexivity|].
+  rewrite (H p (or_introl eq_refl)), IH; [reflexivity|]. intros q Hq. apply H. now right.
 Qed.
 
 (* ------------------------------------------------------------------ *)
